@@ -20,7 +20,11 @@ class RGFA():
       return []
     stable_seqs = set()
     for s in self.segments:
-      stable_seqs.add(s.SN)
+      # (placeholder segments have no SN tag; an SN of another datatype is
+      # reported by validate_rgfa)
+      sn = s.get("SN")
+      if isinstance(sn, str):
+        stable_seqs.add(sn)
     return list(stable_seqs)
 
   def validate_rgfa(self):
